@@ -1,5 +1,5 @@
 #!/bin/bash
-# lab_all.sh <list of seeded ids...>: try each seeded mutant against its property's check in the lab
+# lab_all.sh <list of seeded ids...>: try each seeded mutant against its property's check in the lab ($LAB, default /tmp/lab)
 for id in "$@"; do
   P=${id%%-*}
   echo "=== $id"
